@@ -56,6 +56,7 @@ type SplitSpec struct {
 	Expr   *SNode
 	Src    string
 	Values []string
+	Else   bool // one extra case: the expression equals none of the values
 }
 
 type FuncContract struct {
@@ -452,6 +453,19 @@ func parseContractFile(path string, pkg string, pc *PkgContracts) error {
 				}
 			case "values":
 				sp.Values = f[2:]
+			case "range":
+				// split e range lo hi [else]: one case per integer, optionally one more case for "none of them"
+				if len(f) < 4 {
+					return bad("split range needs lo hi")
+				}
+				lo, _ := strconv.Atoi(f[2])
+				hi, _ := strconv.Atoi(f[3])
+				for k := lo; k <= hi; k++ {
+					sp.Values = append(sp.Values, strconv.Itoa(k))
+				}
+				if len(f) > 4 && f[4] == "else" {
+					sp.Else = true
+				}
 			default:
 				return bad("split: unknown mode %s", f[1])
 			}
